@@ -368,6 +368,7 @@ POOL_ORDERS = [
     ["X", "10", "1"],
     ["chrUn_gl000220", "chr1_KI270706v1_random", "chr1"],
     ["chr1", "chr1", "chr1"],
+    ["CHRX", "Chr10", "CHR2"],  # the prefix is stripped case-insensitively (sorter_chrom's docstring)
 ]
 
 
@@ -376,7 +377,7 @@ def _rt_cfgs():
     for fmt in ("tab", "bed3", "bed4", "interval", "text"):
         for i, lay in enumerate(POOL_ORDERS):
             c = {"fmt": fmt, "chroms": lay}
-            if i in (5, 6) and fmt in ("bed3", "interval"):
+            if (i in (5, 6) and fmt in ("bed3", "interval")) or (i == 8 and fmt not in ("tab", "bed4")):
                 c["tier"] = "thorough"
             out.append(c)
         out.append({"fmt": fmt, "chroms": ["HLA.A", "chr1"], **({} if fmt in ("tab", "bed4") else {"tier": "thorough"})})
